@@ -418,7 +418,7 @@ func c14lang(c *core.Ctx) {
 		}
 		for _, f := range fl.funcs {
 			cells++
-			refExpr :=`(?is:.*)(?:^|[^A-Za-z0-9_])(?i:` + f + `)` + ws + `\((?s:.*)`
+			refExpr := `(?is:.*)(?:^|[^A-Za-z0-9_])(?i:` + f + `)` + ws + `\((?s:.*)`
 			ref, err := an.CompileLang(refExpr)
 			if err != nil {
 				c.Unk("C14.c", "LANG", fl.fn+":"+f, c.P.Pos(fn.Pos()), "cannot compile reference: "+err.Error())
